@@ -145,6 +145,65 @@ func runC11(c *eng.Ctx) {
 	}
 	c.Expect("ORDER-reevaluate", 3)
 
+	// (3a) FOUND-index: a search that records the position of the match in a variable initialised to -1 must treat
+	// every position, 0 included, as found: the test on that variable separates -1 from all indexes >= 0
+	nFound := 0
+	for _, fn := range P.SrcFuncs("weed/topology") {
+		for _, b := range fn.Blocks {
+			iff, ok := b.Instrs[len(b.Instrs)-1].(*ssa.If)
+			if !ok {
+				continue
+			}
+			bo, ok := iff.Cond.(*ssa.BinOp)
+			if !ok {
+				continue
+			}
+			phi, ok := bo.X.(*ssa.Phi)
+			k, isK := eng.ConstInt(bo.Y)
+			if !ok || !isK || len(phi.Edges) != 2 {
+				continue
+			}
+			hasMinus1, hasIndex := false, false
+			for _, ev := range phi.Edges {
+				if kk, isC := eng.ConstInt(ev); isC && kk == -1 {
+					hasMinus1 = true
+				} else if bi, isB := ev.(*ssa.BinOp); isB && bi.Op == token.ADD {
+					if ph2, isP := bi.X.(*ssa.Phi); isP && ph2.Comment == "rangeindex" {
+						hasIndex = true
+					}
+				} else if ph2, isP := ev.(*ssa.Phi); isP && ph2.Comment == "rangeindex" {
+					hasIndex = true
+				}
+			}
+			if !hasMinus1 || !hasIndex {
+				continue
+			}
+			nFound++
+			c.Touch(fn)
+			// the test must be false for -1 and true for every k >= 0 (or the reverse)
+			holds := func(x int64) bool {
+				switch bo.Op {
+				case token.GEQ:
+					return x >= k
+				case token.GTR:
+					return x > k
+				case token.LSS:
+					return x < k
+				case token.LEQ:
+					return x <= k
+				case token.EQL:
+					return x == k
+				case token.NEQ:
+					return x != k
+				}
+				return false
+			}
+			sound := holds(-1) != holds(0) && holds(0) == holds(1) && holds(1) == holds(1<<40)
+			c.Ob("FOUND-index", fmt.Sprintf("%s test#%d", eng.FuncName(fn), nFound), sound, eng.InstrPos(iff), fmt.Sprintf("the found-position test (%s %d) separates 'not found' (-1) from every position, the first one included", bo.Op, k))
+		}
+	}
+	c.Expect("FOUND-index", 1)
+
 	// (3b) change detection reads the previous state before overwriting it
 	if fn := c.NeedFunc("weed/topology", "(*Disk).doAddOrUpdateVolume"); fn != nil {
 		isVolLookup := func(v ssa.Value) *ssa.Lookup {
